@@ -362,7 +362,7 @@ Section SpecLaid.
       destruct (chain_app W _ _ _ _ Hch) as [c0 [C1 C2]].
       rewrite slocs_app.
       rewrite (slocs_concat_index _ (fun _ eo => snd eo) (map (fun e => (e, b_exp flv slv reg e en)) es) O)
-        by (intros i eo; unfold tag_local_init; rewrite !slocs_tag_if; reflexivity).
+        by (intros i eo; unfold tag_local_init; reflexivity).
       rewrite concat_index_const, flat_map_map_comp. cbn [snd].
       assert (Hd : exists k, slocs (map (fun x => decl_occ en flv slv reg (snd x) (fst x))
                                         (combine (combine ns ls) (local_empties ns es))) = firstn k ls).
@@ -372,7 +372,9 @@ Section SpecLaid.
         cbn [combine map snd fst]. destruct (IH ls' emp') as [k Hk]. exists (S k). cbn [firstn]. f_equal. exact Hk. }
       destruct Hd as [k Hk]. rewrite Hk.
       eapply ILD_perm; [apply Permutation_app_comm|].
-      apply (ILD_seq a c0 b); [apply ILD_firstn; apply ILD_ids; exact C1|exact (exps_L flv slv reg es en _ _ IHe Hs0 C2)|
+      destruct (local_marks_chain W ns ls es l c0 b C2) as [c1 [c2 [Lc1 [Lc2 [C3 _]]]]].
+      apply (ILD_seq a c0 b); [apply ILD_firstn; apply ILD_ids; exact C1|
+                               exact (ILD_widen _ _ _ _ _ (exps_L flv slv reg es en _ _ IHe Hs0 C3) Lc1 Lc2)|
                                exact (chain_le W _ _ _ C1)|exact (chain_le W _ _ _ C2)].
     - (* SLocalFunc *) intros n nl f l IHf Hs flv slv reg en a b Hch. cbn [tb_shp_stat b_stat snd] in *.
       cbn [slocs map decl_occ s_loc snd]. fold (slocs (b_exp flv slv reg f (push_decls en [(n, nl)] [false]))).
